@@ -3,42 +3,57 @@
    borrower must find.  A decision table: no state machine, one row per (borrower script, position, max_idle).
 
    Borrower scripts (pos = how many batches were read before leaving / which log message the on_log callback
-   raises on -- "every read position"):
+   raises on -- "every read position"; exc = what the callback raises: a plain Exception, an OSError of its own
+   (e.g. BrokenPipeError while printing the log line -- indistinguishable by type from a wire failure), or a
+   BaseException that is no Exception (KeyboardInterrupt, asyncio.CancelledError)):
      clean    s_unary  s_stream_full  s_stream_close(0,1,3)  s_stream_cancel(0,2)  s_xchg_close(0,2)
-              s_unary_intr(1..3)   unary call whose on_log raises at log pos (client-side exception mid-read)
-              s_close_intr(1..3)   on_log raises while close() drains
-     abandon  s_abandon(0..3)  s_abandon_hdr(0,1)  s_tick_intr(1..3)  s_xchg_intr(1,2)  s_hdr_intr(1,2)
-              s_abandon_then_unary(0,1)         -- the stream (or its init) is left unfinished, nothing closed after it
-     nonlast  s_abandon_then_close(0..2)  s_abandon_then_cancel(1)  s_closed_then_hdr_intr(1,2)
+              s_unary_intr(1..3, Exception)  unary call whose on_log raises at log pos (the client drains)
+              s_close_intr(1..3, Exception)  on_log raises while close() drains the unread rest of an interrupted turn
+              s_unary_error(0,1)  s_stream_error(0..2)  s_init_error(0 header-less, 1 header)  s_xchg_error
+                                             -- the *server* raised; the borrower goes on or leaves
+     abandon  s_abandon(0..3)  s_abandon_hdr(0,1)  s_tick_intr(1..3, any exc)  s_xchg_intr(1,2, any exc)
+              s_hdr_intr(1,2, any exc)  s_abandon_then_unary(0,1)
+                                             -- the stream (or its init) is left unfinished, nothing closed after it
+     nonlast  s_abandon_then_close(0..2)  s_abandon_then_cancel(1)  s_closed_then_hdr_intr(1,2, any exc)
               -- a stream / a stream init is left unfinished, but the most recent StreamSession object is closed
+     intr     s_unary_intr(1..3, OSError | Base)  s_close_intr(1..3, OSError | Base)
+              -- a call (or a close-drain) cut short by an exception the client does not answer by draining
    After the script the first borrower leaves its `with pool.connect(...)`; a second borrower connects, echoes two
    values only it knows and reads a small stream.
 
-   Observation o = [first_ok, reused, probe_ok, own_ok, second_alive, idle_after_first, idle_end, err]
+   Observation o = [first_ok, reused, probe_ok, own_ok, second_alive, idle_after_first, idle_end]
      reused          the second borrower was handed the first borrower's worker process
      probe_ok        its first echo returned its own value      own_ok   so did everything it read afterwards
      second_alive    the worker handed to it was alive (poll() is None) at hand-out                              *)
 EXTENDS Naturals, Sequences, FiniteSets
 
-Row(k, s, ps) == {[kind |-> k, script |-> s, pos |-> p] : p \in ps}
+Row(k, s, ps, es) == {[kind |-> k, script |-> s, pos |-> p, exc |-> e] : p \in ps, e \in es}
+N == {"none"}
+E == {"Exception"}
+OB == {"OSError", "Base"}
+AnyExc == E \cup OB
 Scripts ==
-  Row("clean", "s_unary", {0}) \cup Row("clean", "s_stream_full", {0}) \cup Row("clean", "s_stream_close", {0, 1, 3})
-  \cup Row("clean", "s_stream_cancel", {0, 2}) \cup Row("clean", "s_xchg_close", {0, 2})
-  \cup Row("clean", "s_unary_intr", {1, 2, 3}) \cup Row("clean", "s_close_intr", {1, 2, 3})
-  \cup Row("abandon", "s_abandon", {0, 1, 2, 3}) \cup Row("abandon", "s_abandon_hdr", {0, 1})
-  \cup Row("abandon", "s_tick_intr", {1, 2, 3}) \cup Row("abandon", "s_xchg_intr", {1, 2})
-  \cup Row("abandon", "s_hdr_intr", {1, 2}) \cup Row("abandon", "s_abandon_then_unary", {0, 1})
-  \cup Row("nonlast", "s_abandon_then_close", {0, 1, 2}) \cup Row("nonlast", "s_abandon_then_cancel", {1})
-  \cup Row("nonlast", "s_closed_then_hdr_intr", {1, 2})
+  Row("clean", "s_unary", {0}, N) \cup Row("clean", "s_stream_full", {0}, N) \cup Row("clean", "s_stream_close", {0, 1, 3}, N)
+  \cup Row("clean", "s_stream_cancel", {0, 2}, N) \cup Row("clean", "s_xchg_close", {0, 2}, N)
+  \cup Row("clean", "s_unary_intr", {1, 2, 3}, E) \cup Row("clean", "s_close_intr", {1, 2, 3}, E)
+  \cup Row("clean", "s_unary_error", {0, 1}, N) \cup Row("clean", "s_stream_error", {0, 1, 2}, N)
+  \cup Row("clean", "s_init_error", {0, 1}, N) \cup Row("clean", "s_xchg_error", {0}, N)
+  \cup Row("abandon", "s_abandon", {0, 1, 2, 3}, N) \cup Row("abandon", "s_abandon_hdr", {0, 1}, N)
+  \cup Row("abandon", "s_tick_intr", {1, 2, 3}, AnyExc) \cup Row("abandon", "s_xchg_intr", {1, 2}, AnyExc)
+  \cup Row("abandon", "s_hdr_intr", {1, 2}, AnyExc) \cup Row("abandon", "s_abandon_then_unary", {0, 1}, N)
+  \cup Row("nonlast", "s_abandon_then_close", {0, 1, 2}, N) \cup Row("nonlast", "s_abandon_then_cancel", {1}, N)
+  \cup Row("nonlast", "s_closed_then_hdr_intr", {1, 2}, AnyExc)
+  \cup Row("intr", "s_unary_intr", {1, 2, 3}, OB) \cup Row("intr", "s_close_intr", {1, 2, 3}, OB)
 MaxIdles == {0, 1, 2}
-Cases == {[kind |-> r.kind, script |-> r.script, pos |-> r.pos, mi |-> m] : r \in Scripts, m \in MaxIdles}
+Cases == {[kind |-> r.kind, script |-> r.script, pos |-> r.pos, exc |-> r.exc, mi |-> m] : r \in Scripts, m \in MaxIdles}
 
 OffBoundary(c) == c.kind # "clean"       \* the script leaves the connection in the middle of a message exchange
 \* the intended pool: never keeps an off-boundary connection, never keeps more than max_idle workers
 Expected(c) == [may_reuse |-> ~OffBoundary(c) /\ c.mi > 0, idle_max |-> c.mi]
 
 \* table sanity: every kind has rows at several positions; a reusable row exists for every max_idle > 0
-KindsCovered(c) == \A k \in {"clean", "abandon", "nonlast"} : \E r \in Scripts : r.kind = k /\ r.pos > 0
+KindsCovered(c) == /\ \A k \in {"clean", "abandon", "nonlast", "intr"} : \E r \in Scripts : r.kind = k /\ r.pos > 0
+                   /\ \A e \in AnyExc : \E r \in Scripts : r.exc = e
 ReuseOnlyWhenIdleAllowed(c) == Expected(c).may_reuse => c.mi > 0
 
 Clause(name, ok) == IF ok THEN {} ELSE {name}
@@ -49,5 +64,7 @@ Conforms(c, o) ==
   \cup Clause("IdleBound", o.idle_after_first <= c.mi /\ o.idle_end <= c.mi)
   \cup Clause("FirstBorrowerServed", o.first_ok)
   \* not a property clause: the table says off-boundary, the pool reused it, and the next borrower was fine
-  \cup Clause("drift:TableSaysOffBoundaryButReuseWasFine", ~(OffBoundary(c) /\ o.reused /\ o.probe_ok /\ o.own_ok))
+  \* ("intr" rows are exempt: a client that drains after all makes the connection reusable)
+  \cup Clause("drift:TableSaysOffBoundaryButReuseWasFine",
+             ~(c.kind \in {"abandon", "nonlast"} /\ o.reused /\ o.probe_ok /\ o.own_ok))
 =========================================================================================
